@@ -283,14 +283,46 @@ def parse(case):
     return CiscoConfParse(list(case["cfg"]), syntax=case.get("syntax", "ios"), ignore_blank_lines=case.get("ibl", True))
 
 
+def spec_links(texts, delims=("!",)):
+    """The indentation rule of C02 restated (configs without banner/macro lines): (parents, child lists); a root is its own parent."""
+    info = []
+    for t in texts:
+        st = t.lstrip()
+        info.append((len(t) - len(st), bool(st) and st[:1] not in delims, st[:1] in delims and bool(st)))
+    par = []
+    for i, (ind, _cfg, cmt) in enumerate(info):
+        p = i
+        if ind > 0 and not (cmt and i > 0 and info[i - 1][0] > ind):
+            for j in range(i - 1, -1, -1):
+                if info[j][1] and info[j][0] < ind:
+                    p = j
+                    break
+        par.append(p)
+    return par, [[j for j in range(len(texts)) if par[j] == i and j != i] for i in range(len(texts))]
+
+
 def dump_forest(p):
     objs = list(p.objs)
     idx = {id(o): i for i, o in enumerate(objs)}
-    return {"par": [idx.get(id(o.parent), -1) for o in objs],
-            "kids": [[idx.get(id(c), -1) for c in o.children] for o in objs],
-            "tru": [1 if len(o.text) > 0 else 0 for o in objs],
-            "linenum_ok": all(o.linenum == i for i, o in enumerate(objs)),
-            "texts": [o.text for o in objs]}
+    f = {"par": [idx.get(id(o.parent), -1) for o in objs],
+         "kids": [[idx.get(id(c), -1) for c in o.children] for o in objs],
+         "tru": [1 if len(o.text) > 0 else 0 for o in objs],
+         "linenum_ok": all(o.linenum == i for i, o in enumerate(objs)),
+         "texts": [o.text for o in objs]}
+    # the searches are specified over the tree THE TEXT denotes: a forest that is not the one the indentation rule gives
+    # (C02/C03) makes every answer computed from it wrong for the text; such a case is reported as a disagreement
+    # child lists are exactly the ascending lines whose parent is that line (C03), banner/macro bodies included
+    derived = [[j for j in range(len(objs)) if f["par"][j] == i and j != i] for i in range(len(objs))]
+    if derived != f["kids"]:
+        f["linenum_ok"] = False
+        f["child_lists_do_not_match_parent_links"] = {"children_from_parent_links": derived}
+    import parsegen
+    if not any(parsegen.pban(t) or t.startswith("macro name") for t in f["texts"]):
+        sp, sk = spec_links(f["texts"])
+        if sp != f["par"] or sk != f["kids"]:
+            f["linenum_ok"] = False
+            f["forest_is_not_the_indentation_tree"] = {"spec_parents": sp, "spec_children": sk}
+    return f
 
 
 def _ln(objs):
